@@ -711,17 +711,13 @@ impl<'a> Constraint<'a> {
                 operator,
                 qualifier,
             } => {
-                if let DataOperator::Any = operator {
-                    s += &format!("DATA{} \"{}\" \"{}\";", qualifier.as_str(), set, key,);
-                } else {
-                    s += &format!(
-                        "DATA{} \"{}\" \"{}\" {};",
-                        qualifier.as_str(),
-                        set,
-                        key,
-                        operator.to_string()?
-                    );
-                }
+                s += &format!(
+                    "DATA{} \"{}\" \"{}\" {};",
+                    qualifier.as_str(),
+                    set,
+                    key,
+                    operator.to_string()?
+                );
             }
             Self::Value(operator, qualifier) => {
                 s += &format!("VALUE{} {};", qualifier.as_str(), operator.to_string()?);
